@@ -92,7 +92,11 @@ def check(chk, repo):
 
     def extra(e, u):
         q = u.q
-        return (e.target == comp.field(q, "label") and e.value == comp.field(q, "predicted_label")
+        # label(q) = predicted_label(q), or (chained assignment) the very value stored into predicted_label(q)
+        same_branch = [x for x in comp.events if x.kind == "store" and x.target == comp.field(q, "predicted_label")
+                       and facts(x.guards) == facts(u.event.guards) and x.loops == u.event.loops]
+        vals = [comp.field(q, "predicted_label")] + [x.value for x in same_branch]
+        return (e.target == comp.field(q, "label") and e.value in vals
                 and facts(e.guards) == facts(u.event.guards) and e.loops == u.event.loops)
 
     check_fmax_competition(rep, "", comp, extra_store=extra)
@@ -103,11 +107,12 @@ def check(chk, repo):
 
     from ..schema import competition_summary
     a, b = competition_summary(comp), competition_summary(scomp)
-    extra_store = ("self.subgraph.nodes[q].label", "self.subgraph.nodes[q].predicted_label")
+    extra_stores = (("self.subgraph.nodes[q].label", "self.subgraph.nodes[q].predicted_label"),
+                    ("self.subgraph.nodes[q].label", "self.subgraph.nodes[p].predicted_label"))
     n_extra = 0
     for site in a["sites"]:
-        n_extra += sum(1 for st in site["stores"] if st == extra_store)
-        site["stores"] = tuple(st for st in site["stores"] if st != extra_store)
+        n_extra += sum(1 for st in site["stores"] if st in extra_stores)
+        site["stores"] = tuple(st for st in site["stores"] if st not in extra_stores)
     same = a == b and n_extra <= 1
     detail = ""
     if not same:
